@@ -18,9 +18,37 @@ class CustomError(Exception):
     pass
 
 
+class Unser(object):
+    """a value whose serialisation raises (state holding a module): `jsonpickle.encode` raises TypeError on it"""
+
+    def __getstate__(self):
+        import sys
+        return {'m': sys}
+
+    def __deepcopy__(self, memo):
+        return Unser()
+
+    def __eq__(self, other):
+        return isinstance(other, Unser)
+
+    __hash__ = None
+
+
+class UnserError(Exception):
+    """an exception the serializer rejects; its repr is constant (the recorder stores the repr of such an exception when
+    it leaves the operation, `_serializable_exception_form`)"""
+
+    def __getstate__(self):
+        import sys
+        return {'m': sys}
+
+    def __repr__(self):
+        return 'UnserError()'
+
+
 EXC = {'ValueError': ValueError, 'KeyError': KeyError, 'RuntimeError': RuntimeError, 'CustomError': CustomError,
        'IOError': IOError, 'ZeroDivisionError': ZeroDivisionError, 'AssertionError': AssertionError,
-       'StopIteration': StopIteration, 'NotImplementedError': NotImplementedError}
+       'StopIteration': StopIteration, 'NotImplementedError': NotImplementedError, 'UnserError': UnserError}
 
 INTERRUPTS = {'KeyboardInterrupt': KeyboardInterrupt, 'SystemExit': SystemExit, 'GeneratorExit': GeneratorExit}
 
